@@ -108,6 +108,9 @@ func c14Map(g *xgen.G, d *xdoc.Doc) (m map[string]string, kind string) {
 		kind = "rebinding"
 	default:
 		m = map[string]string{"p": xgen.NSURIs[g.Intn(3)], "q": xgen.NSURIs[g.Intn(3)], "r": "urn:none", "x": xgen.NSURIs[g.Intn(3)]}
+		if g.Chance(0.5) {
+			m[g.Pick("p", "q", "x")] = "" // bound to the EMPTY namespace URI: matches (no namespace, local name), not the literal prefix
+		}
 		kind = "arbitrary"
 	}
 	return
